@@ -24,7 +24,7 @@ def gen_skel(rep=None):
     rc, o = vf.sh(["go", "build", "-o", tool, "."], cwd=os.path.join(vf.HARNESS, "tools", "skel"), env=vf.GOENV, timeout=600)
     if rc != 0:
         return False, "skeleton extractor does not build: " + o[-1500:]
-    rc, o = vf.sh([tool, "-repo", vf.REPO, "-file", SKEL_SRC, "-type", "repository", "-name", "repo",
+    rc, o = vf.sh([tool, "-repo", vf.REPO, "-file", SKEL_SRC, "-type", "repository", "-name", "repo", "-ctor", "newRepository",
                    "-out", GEN, "-json", os.path.join(OUTD, "skel.json")], timeout=120)
     if rc != 0:
         return False, "skeleton extractor failed on %s: %s" % (SKEL_SRC, o[-1500:])
@@ -409,36 +409,51 @@ P = {
                     "Run/Eval_C07.vo"],
     "theorems_module": "Properties.C07",
     "theorems": ["C07_no_crash", "C07_drf", "C07_mutual_exclusion", "C07_deadlock_free", "C07_linearizable",
-                 "C07_readers_see_committed_state", "C07_real_time_order", "C07_no_lost_update", "C07_seq_spec_total", "C07_check_is_needed", "C07_nonvacuous", "C07_repo_safe",
-                 "C07_repo_linearizable"],
+                 "C07_history_is_the_execution", "C07_readers_see_committed_state", "C07_real_time_order",
+                 "C07_no_lost_update", "C07_seq_spec_total", "C07_repo_safe", "C07_repo_linearizable"],
     "streams": [STREAM],
     "generators": [gen_skel],
     "custom": custom,
-    "rule": "stress stream: per case a fresh REAL repository, 2-3 (thorough: 2-4) writer goroutines doing 2-4(5) "
-            "Add/Update/DeleteRuleSet operations each (mostly one source per writer, 15% two writers on one source; rule sets of 1-3 rules "
-            "over a pool of 10 literal paths with shared prefixes, 30% of the paths taken from other sources' corners so that "
-            "cross-source collisions reject changes; unchanged/changed/new/removed rules by id+hash), 1-3 reader goroutines doing 3-7 "
-            "FindRule lookups, then a sequential probe of all 10 paths; built with -race; every operation stamped with a logical clock "
-            "at invocation and response; the driver searches a linearization (Wing-Gong with memoisation) and Coq re-validates it "
-            "against repo_apply.  Non-trivial = at least one pair of operations of different goroutines, one of them a change, "
-            "overlapped in time; distinct by hash of the generated plan.  The interleavings themselves are chosen by the Go "
-            "scheduler (seeded Gosched points only), so the observed histories differ between runs; the verdict does not.",
+    "rule": "stress stream: per case a fresh REAL repository wired as in module.go (newRepository + NewRuleSetProcessor), fed "
+            "through the real rule-set processor (OnCreated/OnUpdated/OnDeleted) with rules whose routes/matchers are the real "
+            "routeImpl/compositeMatcher/method/regex path-param matchers; 2-3 (thorough: 2-4) writer goroutines doing 2-4(5) changes each "
+            "(mostly one source per writer, 15% two writers on one source; rule sets of 1-3 rules over 10 literal path expressions with "
+            "shared prefixes and - in 60% of the plans - 7 wildcard / catch-all expressions, GET-only rules, backtracking on/off/unset, "
+            "regex path_params; cross-source collisions reject changes; unchanged/changed/new/removed rules), 1-3 reader goroutines doing "
+            "3-7 FindRule lookups (GET/POST, 19 request paths), then a sequential probe of all request paths; built with -race; every "
+            "operation stamped with a logical clock at invocation and response.  The driver searches an order of the operations that "
+            "respects real time and in which the REAL code, run sequentially on a fresh repository, gives the same results (Wing-Gong, "
+            "memoised); Coq re-validates order, stamps and equality with the sequential results (= atomicity; no model of "
+            "add/update/delete involved) and, for literal-only plans, compares with the sequential machine repo_apply (correspondence).  "
+            "Second stream: 300 (3000) random trees incl. wildcards: Tree.Clone shares no node / non-empty backing array with its source "
+            "and mutating the clone leaves the source's answers unchanged.  Non-trivial = at least one pair of operations of different "
+            "goroutines, one of them a change, overlapped in time (stamps are taken outside the calls: an upper bound of real "
+            "interleaving); distinct by hash of the generated plan; 5 corpus plans first.  The interleavings are chosen by the Go "
+            "scheduler (seeded Gosched points / lock-step rounds only), so the observed histories differ between runs; the verdict "
+            "does not.",
     "anchors": ["internal/rules/repository_impl.go", "internal/x/radixtree/tree.go"],
     "trusted": [
         "harness/tools/skel (go/ast): the translation of repository_impl.go into the event skeleton (lock/unlock/defer, reads/writes "
-        "of r.knownRules / r.dr, loads/stores of r.index, Clone / mutating / read-only calls on tree objects, inlining of "
-        "addRulesTo/removeRulesFrom, closures as loop bodies) and its syntactic classification of radixtree methods as "
-        "receiver-mutating or not; Base/Locks.v method_paths (enumeration of paths: defers at returns, loops summarised as zero "
-        "or one iteration of object accesses) is evaluated inside Coq but is not proved against Go's semantics",
+        "of r.knownRules / r.dr, loads/stores of r.index incl. sync/atomic.Pointer, Clone / mutating / read-only calls on tree "
+        "objects, inlining of addRulesTo/removeRulesFrom, closures as loop bodies; ANY other method call on or through a guarded "
+        "field, escaping receivers, aliases, goroutines, a constructor used other than in fx.Provide ... become EUnsupported, which "
+        "the Coq check rejects) and its syntactic classification of radixtree methods as receiver-mutating or not; 30 self-tests "
+        "run with every check (cached by source hash); Base/Locks.v method_paths (enumeration of paths: defers at returns, loops "
+        "summarised as zero or one iteration of object accesses) is evaluated inside Coq but is not proved against Go's semantics; "
+        "nothing at run time compares the executed lock/field events with the skeleton",
         "the interleaving semantics of Base/Locks.v is sequentially consistent: the Go memory model is not modelled; the lockset "
         "discipline proved there is what Go's memory model requires for data-race freedom (every conflicting pair of accesses "
         "is ordered by a common mutex); the Go scheduler is only assumed to run some enabled goroutine",
-        "Tree.Clone is assumed to produce an object that shares no mutable memory with its source (checked dynamically by the "
-        "-race stress stream only); rule/route values stored in the tree are immutable",
-        "panics inside the repository methods (other than unlock-of-unlocked-mutex and nil tree pointers) are not modelled here (C19)",
-        "stress stream: linearizability is checked against coq/C07/Model.v repo_apply, a sequential repository machine restricted to "
-        "literal paths (the general matching semantics is C02/C06); the witness search in the driver is untrusted, the witness is "
-        "re-validated in Coq",
+        "the skeleton treats each tree call as one atomic event on ONE abstract tree value and Clone as a deep copy; deepness is "
+        "CHECKED dynamically (clone stream: reflect walk + behavioural test, wildcards included) but not proved; a slice of length 0 "
+        "may keep the source's spare capacity (benign while clones are made under the writer lock only); rule/route/matcher "
+        "objects and the request are outside the model (exercised by -race with the real matchers only)",
+        "crash clause: the theorem covers unlock-of-unlocked-mutex, nil tree pointers and untranslated code; panics inside tree / "
+        "matcher code are only observed (an operation that panics in the stress run is a VIOLATION with the history as replay)",
+        "stress stream: the sequential oracle is the real code (snapshots via Clone, checked by the clone stream); the witness search "
+        "is untrusted, order and results are re-validated in Coq; coq/C07/Model.v repo_apply (literal paths) is a cross-check only",
+        "not on the path: the real rule factory's pipelines (routes and matchers are built with the factory's own helper functions), "
+        "the providers (C18), fx wiring (the extractor only checks that newRepository is handed to fx.Provide undecorated)",
     ],
     "level_text": "Proof (kernel-checked, no axioms), for EVERY lock skeleton passing the boolean check wf_skel and for unboundedly many "
                   "goroutines and operations (induction over the interleaving semantics of sync.Mutex/RWMutex, with and without writer "
@@ -451,9 +466,11 @@ P = {
                   "between invocation and response, and at quiescence the guarded state IS the final state of the sequential history "
                   "(no lost update). The skeleton of the repository is REGENERATED from internal/rules/repository_impl.go (and the "
                   "mutating-method table from internal/x/radixtree) on every run and must pass `Example repo_skel_wf : wf_skel "
-                  "repo_wlock repo_skel = true`. Supporting stream: ~1500 (quick) / 20000 (thorough) concurrent histories of the real "
-                  "repository under `go test -race`, each checked in Coq to be linearizable w.r.t. the sequential repository machine "
-                  "repo_apply (atomic lookups, no lost update, final state).",
+                  "repo_wlock repo_skel = true`. The sequential history of the theorems is tied to the execution: it consists of the "
+                  "execution's own operations, per thread in program order with the returned logs, and respects real time. Supporting "
+                  "streams: ~1500 (quick) / 20000 (thorough) concurrent histories of the real repository behind the real rule-set processor "
+                  "under `go test -race` (wildcards, catch-alls, method and regex matchers, backtracking), each checked in Coq to be atomic "
+                  "w.r.t. the real code run sequentially (and, literal plans, equal to repo_apply); deep-clone check of Tree.Clone.",
     "level_note": "PARTIAL. Proved about the skeleton semantics, not about Go: the Go memory model and scheduler are not modelled "
                   "(sequentially consistent interleavings; lockset discipline => DRF is taken to be what Go guarantees), the "
                   "go/ast extractor and the path enumeration are trusted, Tree.Clone's deepness and panics inside tree code are "
